@@ -4,6 +4,7 @@ META = {
  "C15": dict(level="proof", explanation="one-step postconditions over all trigger and CSR-write valuations on the real EventManager/EventSource*/SharedIRQ behind a real CSRBank"),
  "C11": dict(level="proof", explanation="ghost wait counters against the real WaitTimer/Timeout/AXI(Lite)Timeout: forced termination exactly at expiry, transparency before, recovery after; fault point and schedule universally quantified"),
  "C18": dict(level="proof", explanation="combinational postconditions of encoder+decoder with a symbolic error vector, all data words, all single and double flip positions, per data width"),
+ "C17": dict(level="proof", explanation="multi-cycle postconditions from an arbitrary register state of the real 8b/10b encoder/decoder pipelines"),
  "C04": dict(level="proof", explanation="hold-until-ready two-cycle postcondition and bounded-response (progress) obligations from every invariant state of the real stream/packet modules"),
 }
 
@@ -28,5 +29,7 @@ CLAIMS["C11"] = _hw("DESIGN.md §3 C11", "Ghost wait counters against the real W
                     "AXI(-Lite) time-outs proved for single-outstanding masters; listed known findings: accepted-then-silent slaves, crossbars ignoring timeout_cycles.")
 CLAIMS["C18"] = _hw("DESIGN.md §3 C18", "For every data width of the grid the real encoder and decoder are composed with a symbolic error vector; no-error, single-flip (symbolic position, parity bit included), double-flip (two symbolic positions) and checking-disabled obligations are discharged for all data words by SMT; geometry functions checked exhaustively over k=1..128.",
                     technique="contract-based deductive verification: combinational postconditions on the real FHDL for all data words and symbolic flip positions, SMT portfolio (z3 4.8.12 / z3 5.1 / cvc5)")
+CLAIMS["C17"] = _hw("DESIGN.md §3 C17", "Round trip, code-word weight / running-disparity transitions, invalid detection, run length <= 5 and comma freedom are multi-cycle postconditions of the real Encoder+Decoder proved from an arbitrary register state for all 256 data and 12 control symbols, both disparities, 1-4 words, both bit orders; stalls by clock-enable frame obligations.",
+                    technique="contract-based deductive verification: multi-cycle postconditions from an arbitrary state of the real FHDL pipelines, SMT (z3)")
 _NYB = "check not built yet in this session (see DESIGN.md build order); will be claimed when its contracts are committed"
 NOT_APPLICABLE = {p: _NYB for p in ["C%02d" % i for i in range(1, 21)]}
